@@ -23,6 +23,11 @@ def filter_from_configuration(ctx):
              (["-sflow-type-filter", "%d,7" % big], None, [7, big]), (["-sflow-type-filter", "0"], None, [0]),
              (["-sflow-type-filter", "10"], None, [10]), (["-sflow-type-filter", "08"], None, [8]),
              (["-sflow-type-filter", "2", "-sflow-type-filter", "1"], None, [1, 2]),
+             # a 0 among the listed types is a type like any other (no sample has it): what was listed before it stays listed
+             (["-sflow-type-filter", "2,0"], None, [0, 2]), (["-sflow-type-filter", "0,2"], None, [0, 2]), (["-sflow-type-filter", "1,0,2"], None, [0, 1, 2]),
+             (["-sflow-type-filter", "1", "-sflow-type-filter", "0"], None, [0, 1]),
+             (["-sflow-type-filter", "0"], "sflow-type-filter: [1, 2]\n", None),
+             ([], "sflow-type-filter: [2, 0]\n", [0, 2]),
              ([], "sflow-type-filter: [2]\n", [2]), ([], "sflow-type-filter: [1, 2]\n", [1, 2]), ([], "sflow-type-filter: []\n", []),
              ([], "sflow-type-filter:\n- 1\n- 7\n", [1, 7]),
              (["-sflow-type-filter", "1"], "sflow-type-filter: [2]\n", None)]
@@ -37,7 +42,8 @@ def filter_from_configuration(ctx):
             ctx.violation("flagSet panicked for the sflow type filter given as %s / %r" % (cli, f), {"cli": cli, "file": f}, key="filter-config")
             continue
         got = next((x["val"] for x in r["fields"] if x["yaml"] == "sflow-type-filter"), None) or []
-        ok = set(got) == set(want) if want is not None else set(got) >= {1}      # both given: the command line's types are listed
+        # both given: the command line's types are listed (the file's may be listed too: the flag appends)
+        ok = set(got) == set(want) if want is not None else (set(got) >= {1} or (cli[-1] == "0" and set(got) >= {0} and (set(got) == {0} or set(got) >= {1, 2})))
         if not ok:
             ctx.violation("sflow type filter given as command line %s / configuration file %r: the decoder is handed the list %s, the operator "
                           "listed %s" % (cli, f, got, want if want is not None else "1 (command line) and 2 (file)"),
